@@ -270,6 +270,12 @@ func (c *cursorManager) getLatestCursorOffset(ctx context.Context, cursorKey []b
 				return -1, nil
 			}
 		case err := <-errC:
+			// A cancelled request ends the reverse scan early too (the reader
+			// reports it like the beginning of the log). That is not "cursor
+			// not found": returning -1 here would get -1 cached.
+			if ctx.Err() != nil {
+				return 0, ctx.Err()
+			}
 			// ResourceExhausted means we've read all messages (reached end of
 			// reverse iteration).
 			if err.Code() == codes.ResourceExhausted {
